@@ -181,7 +181,7 @@ def specs(tier, seed, carve):
     for depth, fs in plan:
         for (e, d) in fs:
             out.append(dict(id="history/%d/%s%s" % (depth, EVENTS[e], "-noOH" if d else ""), fn="history", params={"depth": depth, "first": e, "fd": d},
-                            timeout=600 if depth < 4 else 6000,
+                            timeout=(200 if depth == 2 else 900) if depth < 4 else 6000,
                             bound="every sequence of %d events starting with %s%s over %d kinds x {well-formed, no Origin-Host} on a ready connection, with a ledger of unanswered requests" % (
                                 depth, EVENTS[e], " (no Origin-Host)" if d else "", len(EVENTS))))
     return out
